@@ -116,19 +116,28 @@ func bruteForce(h hist) bool {
 			retAt[e[1]] = i
 		}
 	}
-	m := porcupine.GetEtcdModel()
-	evs := events(h, func(x int) int { return x })
-	in, out := make([]interface{}, n), make([]interface{}, n)
-	for i, e := range h.Events {
-		if e[0] == 0 {
-			in[e[1]] = evs[i].Value
-		} else {
-			out[e[1]] = evs[i].Value
+	// the register semantics of the property, independent of the bundled model's Step function: the register holds
+	// nothing or a value; a read is accepted iff it reports the content (or its outcome is unknown); a write always
+	// applies; a compare-and-swap applies iff the register holds the expected value - whether or not its outcome is
+	// known - and is accepted iff the reported success matches (or its outcome is unknown)
+	const none = -1000000
+	step := func(st int, o op) (bool, int) {
+		switch o.Op {
+		case 0:
+			return (!o.Ex && st == none) || (o.Ex && st == o.Val) || o.Unk, st
+		case 1:
+			return true, o.A1
+		default:
+			ns := st
+			if o.A1 == st {
+				ns = o.A2
+			}
+			return (o.A1 == st && o.OK) || (o.A1 != st && !o.OK) || o.Unk, ns
 		}
 	}
 	used := make([]bool, n)
-	var rec func(st interface{}, k int) bool
-	rec = func(st interface{}, k int) bool {
+	var rec func(st int, k int) bool
+	rec = func(st int, k int) bool {
 		if k == n {
 			return true
 		}
@@ -147,7 +156,7 @@ func bruteForce(h hist) bool {
 			if !okNext {
 				continue
 			}
-			ok, ns := m.Step(st, in[i], out[i])
+			ok, ns := step(st, h.Ops[i])
 			if !ok {
 				continue
 			}
@@ -160,7 +169,7 @@ func bruteForce(h hist) bool {
 		}
 		return false
 	}
-	return rec(m.Init(), 0)
+	return rec(none, 0)
 }
 
 var run *hx.Run
